@@ -249,6 +249,13 @@ class _ThreadSched(object):
         self.n = len(tasks)
         self.rng = random.Random(plan.get('preempt_seed', 0) * 7919 + fno)
         self.switch_p = plan.get('switch_p', 0.3)
+        # optional finer interleaving: a hand-over may also happen at any
+        # source line executed inside the library (sys.settrace), not only at
+        # seam calls
+        self.line_p = plan.get('line_p', 0)
+        from sim.env import REPO
+        import os as _os
+        self.repo_prefix = _os.path.realpath(REPO)
         self.dispatch = dispatch
         self.crash_after = crash_after
         self.fno = fno
@@ -265,10 +272,27 @@ class _ThreadSched(object):
     def runnable(self):
         return [i for i in self.dispatch if self.state[i] in ('new', 'running')]
 
+    def _tracer(self, frame, event, arg):
+        # line-level pre-emption inside library frames only
+        if event == 'call':
+            if frame.f_code.co_filename.startswith(self.repo_prefix):
+                return self._line_tracer
+            return None
+        return None
+
+    def _line_tracer(self, frame, event, arg):
+        if event == 'line':
+            if self.rng.random() < self.line_p:
+                self.yield_point(force=True)
+        return self._line_tracer
+
     def _body(self, i):
         self.sems[i].acquire()
         ENV.actor = 'task:%d' % i
         self.idx_of[threading.get_ident()] = i
+        if self.line_p:
+            import sys
+            sys.settrace(self._tracer)
         try:
             if self.abort or (self.crash_after is not None and
                               len(self.done_order) >= self.crash_after):
@@ -286,6 +310,9 @@ class _ThreadSched(object):
             self.errors.append((i, e))
             self.abort = True
         finally:
+            if self.line_p:
+                import sys
+                sys.settrace(None)
             self._handover_final()
 
     def _handover_final(self):
@@ -299,11 +326,11 @@ class _ThreadSched(object):
         self.current = j
         self.sems[j].release()
 
-    def yield_point(self):
+    def yield_point(self, force=False):
         i = self.idx_of.get(threading.get_ident())
         if i is None or self.current != i:
             return                    # coordinator thread, or not ours
-        if self.rng.random() >= self.switch_p:
+        if not force and self.rng.random() >= self.switch_p:
             return
         r = [j for j in self.runnable() if j != i]
         if not r:
